@@ -503,7 +503,7 @@ def identity_cells():
 def plan(tier, seed, scale):
     K = 16
     tasks = [{"name": "matrix-%d" % i, "kind": "matrix", "i": i, "k": K} for i in range(K)]
-    total = int((3000 if tier == "quick" else 60000) * scale)
+    total = int((8000 if tier == "quick" else 60000) * scale)
     for i in range(K):
         tasks.append({"name": "rand-%d" % i, "kind": "rand", "n": max(total // K, 5), "shard": i,
                       "depth": 3 if tier == "quick" else 4})
@@ -538,7 +538,9 @@ def run_task(task, seed, acc):
                     one(case)
         acc.extra["exhaustive"] = True
         return
-    strat = st.tuples(gen_typed.pred(task["depth"], F_ALL), st.sampled_from(BACKENDS))
+    from .. import relational
+    strat = st.tuples(st.one_of(gen_typed.pred(task["depth"], F_ALL), gen_typed.pred(task["depth"], F_ALL),
+                                relational.rel_pred(2, relational.RelCfg())), st.sampled_from(BACKENDS))
 
     def fn(p):
         t, b = p
